@@ -109,3 +109,122 @@ Theorem c13_dom_nodoccss :
 Proof. exact DomRel.c13_dom_nodoccss. Qed.
 Print Assumptions c13_dom_nodoccss.
 
+
+(* ---------- rewrites that change the SHAPE of the document - a text node cut into pieces (comment insertion), inline runs wrapped in bare spans (Proofs/DomSplit.v): the renderer reads a tree only through its signature (neutral containers dissolved, neutral texts merged, estimates recorded); same signature = identical result; same shape + table-free + no overflow + both Ok = same lines ---------- *)
+From H2T Require Import Base Tagged Wrap Sub Css Dom Render Api CssParse Proofs.CssTotal Proofs.WrapInv Proofs.RenderWidth Proofs.Conserve Proofs.Footnotes Proofs.AnnBalance Proofs.RenderConserve Proofs.OptionRel Proofs.Compose Proofs.RenderTotal Proofs.FragStream Proofs.SimRel Proofs.Prune Proofs.DomRel Proofs.DomSplit.
+Theorem render_tree_factor :
+  forall (d : deco) (mw : N) (o : ropts) (width : N) (t : rnode),
+       tree_ok t = true ->
+       eok d mw t = true -> render_tree d mw o width t = srun_tree d o width (sgn (Ek d mw) t).
+Proof. exact DomSplit.render_tree_factor. Qed.
+Print Assumptions render_tree_factor.
+
+Theorem split_safe_render :
+  forall (d : deco) (mw : N) (o : ropts) (width : N) (t1 t2 : rnode) (e1 e2 : est),
+       tree_ok t1 = true ->
+       tree_ok t2 = true ->
+       est_node d mw t1 = Ok e1 ->
+       est_node d mw t2 = Ok e2 ->
+       split_safe d mw t1 t2 -> render_tree d mw o width t1 = render_tree d mw o width t2.
+Proof. exact DomSplit.split_safe_render. Qed.
+Print Assumptions split_safe_render.
+
+Theorem split_equiv_both_ok :
+  forall (d : deco) (mw : N) (o : ropts) (width : N) (t1 t2 : rnode) (s1 s2 : subr),
+       tree_ok t1 = true ->
+       tree_ok t2 = true ->
+       table_free t1 = true ->
+       o_allow_overflow o = false ->
+       split_equiv t1 t2 ->
+       render_tree d mw o width t1 = Ok s1 -> render_tree d mw o width t2 = Ok s2 -> s1 = s2.
+Proof. exact DomSplit.split_equiv_both_ok. Qed.
+Print Assumptions split_equiv_both_ok.
+
+Theorem sq_split_equiv :
+  forall t1 t2 : rnode, sq t1 t2 -> split_equiv t1 t2.
+Proof. exact DomSplit.sq_split_equiv. Qed.
+Print Assumptions sq_split_equiv.
+
+Theorem c13_split_both_ok :
+  forall (d : deco) (mw : N) (o : ropts) (width : N) (t1 t2 : rnode) (s1 s2 : subr),
+       sq t1 t2 ->
+       tree_ok t1 = true ->
+       tree_ok t2 = true ->
+       table_free t1 = true ->
+       o_allow_overflow o = false ->
+       render_tree d mw o width t1 = Ok s1 ->
+       render_tree d mw o width t2 = Ok s2 ->
+       s1 = s2 /\ sub_into_lines s1 = sub_into_lines s2 /\ sub_into_string s1 = sub_into_string s2.
+Proof. exact DomSplit.c13_split_both_ok. Qed.
+Print Assumptions c13_split_both_ok.
+
+Theorem dom_split_trees :
+  forall (inline_styles : list (text * text) -> res (list styledecl))
+         (doc_rules : list node -> res (list ruleset)) (c : config) (doc1 doc2 : list node),
+       dom_split_equiv doc1 doc2 ->
+       DomRel.dom_ntab doc1 = true ->
+       DomRel.dom_ntab doc2 = true ->
+       effective_sd doc_rules c doc1 = effective_sd doc_rules c doc2 ->
+       res_rel tn (to_render_tree inline_styles doc_rules c doc1)
+         (to_render_tree inline_styles doc_rules c doc2).
+Proof. exact DomSplit.dom_split_trees. Qed.
+Print Assumptions dom_split_trees.
+
+Theorem dom_span_trees :
+  forall (inline_styles : list (text * text) -> res (list styledecl))
+         (doc_rules : list node -> res (list ruleset)) (c : config) (doc1 doc2 : list node),
+       dom_span_equiv doc1 doc2 ->
+       DomRel.dom_ntab doc1 = true ->
+       DomRel.dom_ntab doc2 = true ->
+       effective_sd doc_rules c doc1 = effective_sd doc_rules c doc2 ->
+       sd_span_ok doc_rules c doc1 = true ->
+       (c_use_doc_css c = true -> inline_styles [] = Ok []) ->
+       res_rel tn (to_render_tree inline_styles doc_rules c doc1)
+         (to_render_tree inline_styles doc_rules c doc2).
+Proof. exact DomSplit.dom_span_trees. Qed.
+Print Assumptions dom_span_trees.
+
+Theorem c13_dom_split_routes :
+  forall (inline_styles : list (text * text) -> res (list styledecl))
+         (doc_rules : list node -> res (list ruleset)) (c : config) (doc1 doc2 : list node) 
+         (w : N),
+       dom_split_equiv doc1 doc2 ->
+       DomRel.dom_ntab doc1 = true ->
+       DomRel.dom_ntab doc2 = true ->
+       effective_sd doc_rules c doc1 = effective_sd doc_rules c doc2 ->
+       DomRel.doc_tree_ok inline_styles doc_rules c doc1 = true ->
+       DomRel.doc_tree_ok inline_styles doc_rules c doc2 = true ->
+       doc_table_free inline_styles doc_rules c doc1 = true ->
+       c_overflow c = false ->
+       (forall r1 r2 : list tline,
+        lines_from_read inline_styles doc_rules c doc1 w = Ok r1 ->
+        lines_from_read inline_styles doc_rules c doc2 w = Ok r2 -> r1 = r2) /\
+       (forall r1 r2 : text,
+        string_from_read inline_styles doc_rules c doc1 w = Ok r1 ->
+        string_from_read inline_styles doc_rules c doc2 w = Ok r2 -> r1 = r2).
+Proof. exact DomSplit.c13_dom_split_routes. Qed.
+Print Assumptions c13_dom_split_routes.
+
+Theorem c13_dom_span_routes :
+  forall (inline_styles : list (text * text) -> res (list styledecl))
+         (doc_rules : list node -> res (list ruleset)) (c : config) (doc1 doc2 : list node) 
+         (w : N),
+       dom_span_equiv doc1 doc2 ->
+       DomRel.dom_ntab doc1 = true ->
+       DomRel.dom_ntab doc2 = true ->
+       effective_sd doc_rules c doc1 = effective_sd doc_rules c doc2 ->
+       sd_span_ok doc_rules c doc1 = true ->
+       (c_use_doc_css c = true -> inline_styles [] = Ok []) ->
+       DomRel.doc_tree_ok inline_styles doc_rules c doc1 = true ->
+       DomRel.doc_tree_ok inline_styles doc_rules c doc2 = true ->
+       doc_table_free inline_styles doc_rules c doc1 = true ->
+       c_overflow c = false ->
+       (forall r1 r2 : list tline,
+        lines_from_read inline_styles doc_rules c doc1 w = Ok r1 ->
+        lines_from_read inline_styles doc_rules c doc2 w = Ok r2 -> r1 = r2) /\
+       (forall r1 r2 : text,
+        string_from_read inline_styles doc_rules c doc1 w = Ok r1 ->
+        string_from_read inline_styles doc_rules c doc2 w = Ok r2 -> r1 = r2).
+Proof. exact DomSplit.c13_dom_span_routes. Qed.
+Print Assumptions c13_dom_span_routes.
+
